@@ -535,3 +535,21 @@ pub fn run_c1(t: &[&str]) -> String {
         at
     )
 }
+
+/// `c1c <hexsrc>`: compile only (nothing is run) on a fresh interpreter; the emitted bytecode.
+pub fn run_c1c(t: &[&str]) -> String {
+    let mut sess = Session::new();
+    let src = String::from_utf8(parse_hex_bytes(t[0])).expect("utf8");
+    let from = sess.states[0].verif_code_dump(0).len();
+    let r = sess.states[0].compile(&src);
+    let xs = &sess.states[0];
+    let ops: Vec<String> = xs
+        .verif_code_dump(from)
+        .iter()
+        .map(|x| match x.find(" @") {
+            Some(i) => x[..i].to_string(),
+            None => x.clone(),
+        })
+        .collect();
+    format!("R={} CODE={}", res_string(xs, &r), ops.join(" ; "))
+}
